@@ -12,24 +12,28 @@ type operatorPatcher struct {
 
 func (p *operatorPatcher) Enter(node *ast.Node) {}
 func (p *operatorPatcher) Exit(node *ast.Node) {
-	binaryNode, ok := (*node).(*ast.BinaryNode)
+	var operator string
+	var left, right ast.Node
+	switch n := (*node).(type) {
+	case *ast.BinaryNode:
+		operator, left, right = n.Operator, n.Left, n.Right
+	case *ast.MatchesNode:
+		// The parser gives "matches" a node kind of its own.
+		operator, left, right = "matches", n.Left, n.Right
+	default:
+		return
+	}
+
+	fns, ok := p.ops[operator]
 	if !ok {
 		return
 	}
 
-	fns, ok := p.ops[binaryNode.Operator]
-	if !ok {
-		return
-	}
-
-	leftType := binaryNode.Left.Type()
-	rightType := binaryNode.Right.Type()
-
-	_, fn, ok := conf.FindSuitableOperatorOverload(fns, p.types, leftType, rightType)
+	_, fn, ok := conf.FindSuitableOperatorOverload(fns, p.types, left.Type(), right.Type())
 	if ok {
 		newNode := &ast.FunctionNode{
 			Name:      fn,
-			Arguments: []ast.Node{binaryNode.Left, binaryNode.Right},
+			Arguments: []ast.Node{left, right},
 		}
 		ast.Patch(node, newNode)
 	}
